@@ -97,7 +97,8 @@ inline Op decode(const uint8_t* b, const Profile& p) {
       o.a[CA_LIT] = -1;
       if (lit) {
         o.a[CA_SLOT] = NSLOT + b[2] % NLIT;
-        o.a[CA_LIT] = b[3] % NLITFORM;
+        o.a[CA_LIT] = b[3] % (NLITFORM + NLITNAMEDV);
+        if (o.a[CA_LIT] >= NLITFORM) o.a[CA_LIT] += NLITALL - NLITFORM;   // 30..33: NAMED_ variadic spellings
         o.a[CA_OBJ] = p.concentrate ? (b[4] % 8 < 6 ? 0 : 1) : b[4] % NOBJ;
         lit_fill(o);  // the rest of the spec is implied by the literal form
         break;
@@ -159,8 +160,9 @@ inline Op decode(const uint8_t* b, const Profile& p) {
     case O_PUSH_TRACER: o.a = {b[2] % 3 == 0 ? 1 : 0}; break;
     case O_SCOPED: {
       int ob = p.concentrate ? (b[2] % 8 < 6 ? 0 : 1) : b[2] % NOBJ;
-      int fa = b[3] % 8, fb = b[4] % 3 == 0 ? -1 : b[5] % 8;
-      if (fb == fa) fb = (fa + 1 + b[6] % 7) % 8;
+      constexpr int NSF = NLITALL - NLITNAMED;
+      int fa = b[3] % NSF, fb = b[4] % 3 == 0 ? -1 : b[5] % NSF;
+      if (fb == fa) fb = (fa + 1 + b[6] % (NSF - 1)) % NSF;
       int n = 1 + b[7] % 4;
       o.a = {ob, fa, fb, n};
       for (int i = 0; i < n; ++i) { o.a.push_back(b[8 + 2 * i] % 8 == 0 ? 1 : 0); o.a.push_back(b[9 + 2 * i] % 16 == 15 ? 77 : b[9 + 2 * i] % 6); }
